@@ -576,3 +576,224 @@ Theorem C05_block_c_avx2_blake3_hash8_avx2 : forall h clo chi bf inputs block,
   vcompress 8 h (transpose_msg_vecs8 inputs (block * 64)) clo chi rs_BLOCK_LEN bf.
 Proof. exact c_avx2_blake3_hash8_avx2_block_ok. Qed.
 Print Assumptions C05_block_c_avx2_blake3_hash8_avx2.
+
+(* The row-vectorised single-block compression, TRANSLATED from the sources (gen/GenRows.v, tools/gen_coq.py
+   gen_kernel_rows): g1, g2, diagonalize, undiagonalize, compress_pre (the seven rounds with their message shuffles,
+   every immediate from the text), compress_in_place and compress_xof of src/rust_sse41.rs, src/rust_sse2.rs,
+   c/blake3_sse2.c, c/blake3_sse41.c and c/blake3_avx512.c, as terms over the intrinsic semantics of Model/Intrinsics.v
+   (_mm_shuffle_epi32, _mm_shuffle_ps between the two casts, _mm_blend_epi16 on 16-bit elements, the unpacks,
+   _mm_set_epi16 / _mm_set1_epi16 / _mm_cmpeq_epi16 of the SSE2 blend emulation, _mm_loadu_si128 / _mm_storeu_si128 on
+   the little-endian memory image of cv, transmute of four registers to 64 bytes).  Each translated function equals the
+   hand-written model of Model/Kernels.v section 7 that C05_compress_in_place_rows / C05_compress_xof_rows above are
+   about, hence the portable compression.  cv, block, counter, block_len, flags and all registers are variables.
+   Domain C05_row_dom: cv is 8 words below 2^32, block is 64 bytes, block_len and flags (u8 / uint8_t in the sources)
+   are below 2^32.  g1 / g2 of the Rust files and of blake3_avx512.c: on all lists; of blake3_sse2.c / blake3_sse41.c
+   (byte / 16-bit shuffles, shift pairs joined by XOR): on registers of four 32-bit lanes. *)
+From V Require Import gen.GenRows Proofs.RowsP.
+
+Definition C05_row_dom (cv block : list N) (bl fl : N) : Prop :=
+  length cv = 8%nat /\ Forall (fun w => w < 2 ^ 32) cv /\ length block = 64%nat /\ Forall (fun b => b < 256) block /\
+  bl < 2 ^ 32 /\ fl < 2 ^ 32.
+
+(* the intrinsics with the two blend immediates of the sources: lane selection, on registers of 32-bit lanes *)
+Theorem C05_mm_blend_epi16_0xCC : forall a b, C05_reg 4 a -> C05_reg 4 b -> mm_blend_epi16 a b 0xCC%Z = blend_epi16 0 a b 0xCC.
+Proof. exact blend_cc_ok. Qed.
+Print Assumptions C05_mm_blend_epi16_0xCC.
+Theorem C05_mm_blend_epi16_0xC0 : forall a b, C05_reg 4 a -> C05_reg 4 b -> mm_blend_epi16 a b 0xC0%Z = blend_epi16 0 a b 0xC0.
+Proof. exact blend_c0_ok. Qed.
+Print Assumptions C05_mm_blend_epi16_0xC0.
+(* the model compress_pre is the statement sequence of the sources (rows and message registers loaded, then
+   flat_pre: seven rounds in source order) *)
+Theorem C05_compress_pre_rows_flat : forall B (fin : vec -> vec -> vec -> vec -> B) cv block bl ctr fl,
+  (let '(a, b, c, d) := compress_pre_rows cv block bl ctr fl in fin a b c d) = flat_compress_pre fin cv block bl ctr fl.
+Proof. exact @compress_pre_rows_flat. Qed.
+Print Assumptions C05_compress_pre_rows_flat.
+
+(* src/rust_sse41.rs *)
+Theorem C05_rs_sse41_g1 : forall a b c d m, rs_sse41_g1 a b c d m = g1r a b c d m.
+Proof. exact rs_sse41_g1_ok. Qed.
+Print Assumptions C05_rs_sse41_g1.
+Theorem C05_rs_sse41_g2 : forall a b c d m, rs_sse41_g2 a b c d m = g2r a b c d m.
+Proof. exact rs_sse41_g2_ok. Qed.
+Print Assumptions C05_rs_sse41_g2.
+Theorem C05_rs_sse41_diagonalize : forall a b c, rs_sse41_diagonalize a b c = diagonalize a b c.
+Proof. exact rs_sse41_diagonalize_ok. Qed.
+Print Assumptions C05_rs_sse41_diagonalize.
+Theorem C05_rs_sse41_undiagonalize : forall a b c, rs_sse41_undiagonalize a b c = undiagonalize a b c.
+Proof. exact rs_sse41_undiagonalize_ok. Qed.
+Print Assumptions C05_rs_sse41_undiagonalize.
+Theorem C05_rs_sse41_compress_pre : forall cv block bl ctr fl, C05_row_dom cv block bl fl ->
+  rs_sse41_compress_pre cv block bl ctr fl = Ok (compress_pre_rows cv block bl ctr fl).
+Proof. exact rs_sse41_compress_pre_ok. Qed.
+Print Assumptions C05_rs_sse41_compress_pre.
+Theorem C05_rs_sse41_compress_in_place : forall cv block bl ctr fl, C05_row_dom cv block bl fl ->
+  rs_sse41_compress_in_place cv block bl ctr fl = Ok (compress_in_place_rows cv block bl ctr fl).
+Proof. exact rs_sse41_compress_in_place_ok. Qed.
+Print Assumptions C05_rs_sse41_compress_in_place.
+Theorem C05_rs_sse41_compress_xof : forall cv block bl ctr fl, C05_row_dom cv block bl fl ->
+  rs_sse41_compress_xof cv block bl ctr fl = Ok (compress_xof_rows cv block bl ctr fl).
+Proof. exact rs_sse41_compress_xof_ok. Qed.
+Print Assumptions C05_rs_sse41_compress_xof.
+Theorem C05_rs_sse41_compress_in_place_portable : forall cv block bl ctr fl, C05_row_dom cv block bl fl ->
+  rs_sse41_compress_in_place cv block bl ctr fl = Ok (compress_in_place cv block bl ctr fl).
+Proof. exact rs_sse41_compress_in_place_portable. Qed.
+Print Assumptions C05_rs_sse41_compress_in_place_portable.
+Theorem C05_rs_sse41_compress_xof_portable : forall cv block bl ctr fl, C05_row_dom cv block bl fl ->
+  rs_sse41_compress_xof cv block bl ctr fl = Ok (compress_xof cv block bl ctr fl).
+Proof. exact rs_sse41_compress_xof_portable. Qed.
+Print Assumptions C05_rs_sse41_compress_xof_portable.
+
+(* src/rust_sse2.rs (blend_epi16: _mm_blend_epi16 emulated with and / andnot / or under a cmpeq_epi16 mask) *)
+Theorem C05_rs_sse2_g1 : forall a b c d m, rs_sse2_g1 a b c d m = g1r a b c d m.
+Proof. exact rs_sse2_g1_ok. Qed.
+Print Assumptions C05_rs_sse2_g1.
+Theorem C05_rs_sse2_g2 : forall a b c d m, rs_sse2_g2 a b c d m = g2r a b c d m.
+Proof. exact rs_sse2_g2_ok. Qed.
+Print Assumptions C05_rs_sse2_g2.
+Theorem C05_rs_sse2_diagonalize : forall a b c, rs_sse2_diagonalize a b c = diagonalize a b c.
+Proof. exact rs_sse2_diagonalize_ok. Qed.
+Print Assumptions C05_rs_sse2_diagonalize.
+Theorem C05_rs_sse2_undiagonalize : forall a b c, rs_sse2_undiagonalize a b c = undiagonalize a b c.
+Proof. exact rs_sse2_undiagonalize_ok. Qed.
+Print Assumptions C05_rs_sse2_undiagonalize.
+Theorem C05_rs_sse2_blend_epi16_0xCC : forall a b, C05_reg 4 a -> C05_reg 4 b -> rs_sse2_blend_epi16 a b 0xCC%Z = blend_epi16 0 a b 0xCC.
+Proof. exact rs_sse2_blend_cc_ok. Qed.
+Print Assumptions C05_rs_sse2_blend_epi16_0xCC.
+Theorem C05_rs_sse2_blend_epi16_0xC0 : forall a b, C05_reg 4 a -> C05_reg 4 b -> rs_sse2_blend_epi16 a b 0xC0%Z = blend_epi16 0 a b 0xC0.
+Proof. exact rs_sse2_blend_c0_ok. Qed.
+Print Assumptions C05_rs_sse2_blend_epi16_0xC0.
+Theorem C05_rs_sse2_compress_pre : forall cv block bl ctr fl, C05_row_dom cv block bl fl ->
+  rs_sse2_compress_pre cv block bl ctr fl = Ok (compress_pre_rows cv block bl ctr fl).
+Proof. exact rs_sse2_compress_pre_ok. Qed.
+Print Assumptions C05_rs_sse2_compress_pre.
+Theorem C05_rs_sse2_compress_in_place : forall cv block bl ctr fl, C05_row_dom cv block bl fl ->
+  rs_sse2_compress_in_place cv block bl ctr fl = Ok (compress_in_place_rows cv block bl ctr fl).
+Proof. exact rs_sse2_compress_in_place_ok. Qed.
+Print Assumptions C05_rs_sse2_compress_in_place.
+Theorem C05_rs_sse2_compress_xof : forall cv block bl ctr fl, C05_row_dom cv block bl fl ->
+  rs_sse2_compress_xof cv block bl ctr fl = Ok (compress_xof_rows cv block bl ctr fl).
+Proof. exact rs_sse2_compress_xof_ok. Qed.
+Print Assumptions C05_rs_sse2_compress_xof.
+Theorem C05_rs_sse2_compress_in_place_portable : forall cv block bl ctr fl, C05_row_dom cv block bl fl ->
+  rs_sse2_compress_in_place cv block bl ctr fl = Ok (compress_in_place cv block bl ctr fl).
+Proof. exact rs_sse2_compress_in_place_portable. Qed.
+Print Assumptions C05_rs_sse2_compress_in_place_portable.
+Theorem C05_rs_sse2_compress_xof_portable : forall cv block bl ctr fl, C05_row_dom cv block bl fl ->
+  rs_sse2_compress_xof cv block bl ctr fl = Ok (compress_xof cv block bl ctr fl).
+Proof. exact rs_sse2_compress_xof_portable. Qed.
+Print Assumptions C05_rs_sse2_compress_xof_portable.
+
+(* c/blake3_avx512.c (the 128-bit compress_pre; rotations by _mm_ror_epi32) *)
+Theorem C05_c_avx512_g1 : forall a b c d m, c_avx512_g1 a b c d m = g1r a b c d m.
+Proof. exact c_avx512_g1_ok. Qed.
+Print Assumptions C05_c_avx512_g1.
+Theorem C05_c_avx512_g2 : forall a b c d m, c_avx512_g2 a b c d m = g2r a b c d m.
+Proof. exact c_avx512_g2_ok. Qed.
+Print Assumptions C05_c_avx512_g2.
+Theorem C05_c_avx512_diagonalize : forall a b c, c_avx512_diagonalize a b c = diagonalize a b c.
+Proof. exact c_avx512_diagonalize_ok. Qed.
+Print Assumptions C05_c_avx512_diagonalize.
+Theorem C05_c_avx512_undiagonalize : forall a b c, c_avx512_undiagonalize a b c = undiagonalize a b c.
+Proof. exact c_avx512_undiagonalize_ok. Qed.
+Print Assumptions C05_c_avx512_undiagonalize.
+Theorem C05_c_avx512_compress_pre : forall cv block bl ctr fl, C05_row_dom cv block bl fl ->
+  c_avx512_compress_pre cv block bl ctr fl = compress_pre_rows cv block bl ctr fl.
+Proof. exact c_avx512_compress_pre_ok. Qed.
+Print Assumptions C05_c_avx512_compress_pre.
+Theorem C05_c_avx512_blake3_compress_in_place_avx512 : forall cv block bl ctr fl, C05_row_dom cv block bl fl ->
+  c_avx512_blake3_compress_in_place_avx512 cv block bl ctr fl = compress_in_place_rows cv block bl ctr fl.
+Proof. exact c_avx512_blake3_compress_in_place_avx512_ok. Qed.
+Print Assumptions C05_c_avx512_blake3_compress_in_place_avx512.
+(* `out`: the 64 bytes the caller passes; all of them are overwritten *)
+Theorem C05_c_avx512_blake3_compress_xof_avx512 : forall cv block bl ctr fl out, C05_row_dom cv block bl fl -> length out = 64%nat ->
+  c_avx512_blake3_compress_xof_avx512 cv block bl ctr fl out = compress_xof_rows cv block bl ctr fl.
+Proof. exact c_avx512_blake3_compress_xof_avx512_ok. Qed.
+Print Assumptions C05_c_avx512_blake3_compress_xof_avx512.
+Theorem C05_c_avx512_blake3_compress_in_place_avx512_portable : forall cv block bl ctr fl, C05_row_dom cv block bl fl ->
+  c_avx512_blake3_compress_in_place_avx512 cv block bl ctr fl = compress_in_place cv block bl ctr fl.
+Proof. exact c_avx512_compress_in_place_portable. Qed.
+Print Assumptions C05_c_avx512_blake3_compress_in_place_avx512_portable.
+Theorem C05_c_avx512_blake3_compress_xof_avx512_portable : forall cv block bl ctr fl out, C05_row_dom cv block bl fl -> length out = 64%nat ->
+  c_avx512_blake3_compress_xof_avx512 cv block bl ctr fl out = compress_xof cv block bl ctr fl.
+Proof. exact c_avx512_compress_xof_portable. Qed.
+Print Assumptions C05_c_avx512_blake3_compress_xof_avx512_portable.
+
+(* c/blake3_sse41.c *)
+Theorem C05_c_sse41_g1 : forall a b c d m, C05_reg 4 a -> C05_reg 4 b -> C05_reg 4 c -> C05_reg 4 d -> C05_reg 4 m ->
+  c_sse41_g1 a b c d m = g1r a b c d m.
+Proof. exact c_sse41_g1_ok. Qed.
+Print Assumptions C05_c_sse41_g1.
+Theorem C05_c_sse41_g2 : forall a b c d m, C05_reg 4 a -> C05_reg 4 b -> C05_reg 4 c -> C05_reg 4 d -> C05_reg 4 m ->
+  c_sse41_g2 a b c d m = g2r a b c d m.
+Proof. exact c_sse41_g2_ok. Qed.
+Print Assumptions C05_c_sse41_g2.
+Theorem C05_c_sse41_diagonalize : forall a b c, c_sse41_diagonalize a b c = diagonalize a b c.
+Proof. exact c_sse41_diagonalize_ok. Qed.
+Print Assumptions C05_c_sse41_diagonalize.
+Theorem C05_c_sse41_undiagonalize : forall a b c, c_sse41_undiagonalize a b c = undiagonalize a b c.
+Proof. exact c_sse41_undiagonalize_ok. Qed.
+Print Assumptions C05_c_sse41_undiagonalize.
+Theorem C05_c_sse41_compress_pre : forall cv block bl ctr fl, C05_row_dom cv block bl fl ->
+  c_sse41_compress_pre cv block bl ctr fl = compress_pre_rows cv block bl ctr fl.
+Proof. exact c_sse41_compress_pre_ok. Qed.
+Print Assumptions C05_c_sse41_compress_pre.
+Theorem C05_c_sse41_blake3_compress_in_place_sse41 : forall cv block bl ctr fl, C05_row_dom cv block bl fl ->
+  c_sse41_blake3_compress_in_place_sse41 cv block bl ctr fl = compress_in_place_rows cv block bl ctr fl.
+Proof. exact c_sse41_blake3_compress_in_place_sse41_ok. Qed.
+Print Assumptions C05_c_sse41_blake3_compress_in_place_sse41.
+(* `out`: the 64 bytes the caller passes; all of them are overwritten *)
+Theorem C05_c_sse41_blake3_compress_xof_sse41 : forall cv block bl ctr fl out, C05_row_dom cv block bl fl -> length out = 64%nat ->
+  c_sse41_blake3_compress_xof_sse41 cv block bl ctr fl out = compress_xof_rows cv block bl ctr fl.
+Proof. exact c_sse41_blake3_compress_xof_sse41_ok. Qed.
+Print Assumptions C05_c_sse41_blake3_compress_xof_sse41.
+Theorem C05_c_sse41_blake3_compress_in_place_sse41_portable : forall cv block bl ctr fl, C05_row_dom cv block bl fl ->
+  c_sse41_blake3_compress_in_place_sse41 cv block bl ctr fl = compress_in_place cv block bl ctr fl.
+Proof. exact c_sse41_compress_in_place_portable. Qed.
+Print Assumptions C05_c_sse41_blake3_compress_in_place_sse41_portable.
+Theorem C05_c_sse41_blake3_compress_xof_sse41_portable : forall cv block bl ctr fl out, C05_row_dom cv block bl fl -> length out = 64%nat ->
+  c_sse41_blake3_compress_xof_sse41 cv block bl ctr fl out = compress_xof cv block bl ctr fl.
+Proof. exact c_sse41_compress_xof_portable. Qed.
+Print Assumptions C05_c_sse41_blake3_compress_xof_sse41_portable.
+
+(* c/blake3_sse2.c (blend_epi16 as in rust_sse2.rs; the int16_t parameter receives (int16_t)0xCC) *)
+Theorem C05_c_sse2_g1 : forall a b c d m, C05_reg 4 a -> C05_reg 4 b -> C05_reg 4 c -> C05_reg 4 d -> C05_reg 4 m ->
+  c_sse2_g1 a b c d m = g1r a b c d m.
+Proof. exact c_sse2_g1_ok. Qed.
+Print Assumptions C05_c_sse2_g1.
+Theorem C05_c_sse2_g2 : forall a b c d m, C05_reg 4 a -> C05_reg 4 b -> C05_reg 4 c -> C05_reg 4 d -> C05_reg 4 m ->
+  c_sse2_g2 a b c d m = g2r a b c d m.
+Proof. exact c_sse2_g2_ok. Qed.
+Print Assumptions C05_c_sse2_g2.
+Theorem C05_c_sse2_diagonalize : forall a b c, c_sse2_diagonalize a b c = diagonalize a b c.
+Proof. exact c_sse2_diagonalize_ok. Qed.
+Print Assumptions C05_c_sse2_diagonalize.
+Theorem C05_c_sse2_undiagonalize : forall a b c, c_sse2_undiagonalize a b c = undiagonalize a b c.
+Proof. exact c_sse2_undiagonalize_ok. Qed.
+Print Assumptions C05_c_sse2_undiagonalize.
+Theorem C05_c_sse2_blend_epi16_0xCC : forall a b, C05_reg 4 a -> C05_reg 4 b -> c_sse2_blend_epi16 a b (cast_s 16 0xCC%Z) = blend_epi16 0 a b 0xCC.
+Proof. exact c_sse2_blend_cc_ok. Qed.
+Print Assumptions C05_c_sse2_blend_epi16_0xCC.
+Theorem C05_c_sse2_blend_epi16_0xC0 : forall a b, C05_reg 4 a -> C05_reg 4 b -> c_sse2_blend_epi16 a b (cast_s 16 0xC0%Z) = blend_epi16 0 a b 0xC0.
+Proof. exact c_sse2_blend_c0_ok. Qed.
+Print Assumptions C05_c_sse2_blend_epi16_0xC0.
+Theorem C05_c_sse2_compress_pre : forall cv block bl ctr fl, C05_row_dom cv block bl fl ->
+  c_sse2_compress_pre cv block bl ctr fl = compress_pre_rows cv block bl ctr fl.
+Proof. exact c_sse2_compress_pre_ok. Qed.
+Print Assumptions C05_c_sse2_compress_pre.
+Theorem C05_c_sse2_blake3_compress_in_place_sse2 : forall cv block bl ctr fl, C05_row_dom cv block bl fl ->
+  c_sse2_blake3_compress_in_place_sse2 cv block bl ctr fl = compress_in_place_rows cv block bl ctr fl.
+Proof. exact c_sse2_blake3_compress_in_place_sse2_ok. Qed.
+Print Assumptions C05_c_sse2_blake3_compress_in_place_sse2.
+(* `out`: the 64 bytes the caller passes; all of them are overwritten *)
+Theorem C05_c_sse2_blake3_compress_xof_sse2 : forall cv block bl ctr fl out, C05_row_dom cv block bl fl -> length out = 64%nat ->
+  c_sse2_blake3_compress_xof_sse2 cv block bl ctr fl out = compress_xof_rows cv block bl ctr fl.
+Proof. exact c_sse2_blake3_compress_xof_sse2_ok. Qed.
+Print Assumptions C05_c_sse2_blake3_compress_xof_sse2.
+Theorem C05_c_sse2_blake3_compress_in_place_sse2_portable : forall cv block bl ctr fl, C05_row_dom cv block bl fl ->
+  c_sse2_blake3_compress_in_place_sse2 cv block bl ctr fl = compress_in_place cv block bl ctr fl.
+Proof. exact c_sse2_compress_in_place_portable. Qed.
+Print Assumptions C05_c_sse2_blake3_compress_in_place_sse2_portable.
+Theorem C05_c_sse2_blake3_compress_xof_sse2_portable : forall cv block bl ctr fl out, C05_row_dom cv block bl fl -> length out = 64%nat ->
+  c_sse2_blake3_compress_xof_sse2 cv block bl ctr fl out = compress_xof cv block bl ctr fl.
+Proof. exact c_sse2_compress_xof_portable. Qed.
+Print Assumptions C05_c_sse2_blake3_compress_xof_sse2_portable.
